@@ -645,7 +645,7 @@ func caseIdentities(types [3]int) []*keys.Identity {
 
 func TestServerProvenance(t *testing.T) {
 	name := t.Name()
-	hx.Check(t, 24000, 1000000, 0, func(rt *rapid.T) {
+	hx.Check(t, 18000, 1000000, 0, func(rt *rapid.T) {
 		sc := drawScenario(rt)
 		var fp []string
 		var labels []string
